@@ -1,7 +1,10 @@
 package sim
 
 import (
+	"fmt"
 	"math/rand"
+	"runtime"
+	"strings"
 )
 
 // Tape is the only source of choice in a simulated run. In generate mode every
@@ -21,6 +24,11 @@ type tapeCore struct {
 	drawn    []bool
 	isReplay bool
 	rng      *rand.Rand
+	// a draw from an exhausted block returns 0 without being recorded: a block sized too small in a
+	// check silently pins every later choice to its simplest value. Remembered and reported as a
+	// harness problem at the end of the run.
+	overflows  int
+	overflowAt string
 }
 
 type Tape struct {
@@ -55,6 +63,9 @@ func NewReplayTape(vals []uint32) *Tape {
 
 // Blocks returns the block windows reserved during the run, in creation order.
 func (t *Tape) Blocks() []BlockSpan { return t.c.blocks }
+
+// Overflow reports draws made from an exhausted block (count, first call site).
+func (t *Tape) Overflow() (int, string) { return t.c.overflows, t.c.overflowAt }
 
 // Recorded returns the normalised tape consumed so far (trailing zeros cut).
 func (t *Tape) Recorded() []uint32 {
@@ -98,6 +109,16 @@ func (t *Tape) Draw(n int) int {
 		n = 1
 	}
 	if t.limit >= 0 && t.pos >= t.limit {
+		t.c.overflows++
+		if t.c.overflowAt == "" {
+			for skip := 1; skip < 6; skip++ {
+				_, file, line, ok := runtime.Caller(skip)
+				if ok && !strings.HasSuffix(file, "/tape.go") {
+					t.c.overflowAt = fmt.Sprintf("%s:%d", file[strings.LastIndex(file, "/")+1:], line)
+					break
+				}
+			}
+		}
 		return 0 // block exhausted: simplest value, nothing recorded
 	}
 	v := t.c.slot(t.pos, uint32(n))
